@@ -47,6 +47,8 @@ func Execute(t *testing.T, p *Property, seed uint64, tier string, tape []int, ke
 	// crypto/rand is pinned to the seed (not the tape) so that minimisation of
 	// the tape does not change key material.
 	cryptotest.SetGlobalRandom(t, seed)
+	// scenarios that execute several twin sub-runs re-pin the stream for each of them
+	r.Reseed = func(sub uint64) { cryptotest.SetGlobalRandom(t, seed^(sub*0x9E3779B97F4A7C15)) }
 
 	body := func() {
 		defer func() {
